@@ -193,7 +193,7 @@ def group_name(pol, scan):
     return pol + (f"_scan{scan[1]}" if scan else "")
 
 
-def fill_builder(fb, filekey, seed, ctx, type_code, tables, plan=None, overrides=None, drift=False, vary_constants=False):
+def fill_builder(fb, filekey, seed, ctx, type_code, tables, plan=None, overrides=None, drift=False, vary_constants=False, desc_key=None):
     """write a valid, distinct token into every value field of every record of one file builder.
     drift: per-line binary numeric fields of an image change by ONE unit from line to line (slowly varying geometry: a look angle
     moving by 1e-6 degree per line) instead of being unrelated from line to line"""
@@ -216,13 +216,15 @@ def fill_builder(fb, filekey, seed, ctx, type_code, tables, plan=None, overrides
                 # vary_constants: the fields the reader surfaces once per file (update flags, channel ids, ...) CHANGE along the lines of
                 # this file (an update flag raised on some lines is what the flag is for); the reader keeps the first line's value
                 lkey = line if (vary_constants or not (filekey.startswith("IMG") and path.split(".")[0] in PER_FILE_CONSTANT)) else 0
-                h = h32(seed, filekey, rec["name"], nth, path, lkey)
+                # desc_key: the images of one product carry the SAME file descriptor (as the polarisations of a real scene do)
+                fkey = desc_key if (desc_key and rec["name"] == "file_descriptor") else filekey
+                h = h32(seed, fkey, rec["name"], nth, path, lkey)
                 c = dict(ctx, type_code=type_code)
                 v = special_value(rec["name"], path, leaf, h, c)
                 if v is None:
                     numeric_line = leaf["k"] in ("u16", "u32", "u64") and not leaf["t"] and rec["name"] == "line"
                     if drift and numeric_line:
-                        v0 = typical_value(leaf, (seed, filekey, rec["name"], nth, path, 0), tables) % (1 << (8 * leaf["w"] - 1))
+                        v0 = typical_value(leaf, (seed, fkey, rec["name"], nth, path, 0), tables) % (1 << (8 * leaf["w"] - 1))
                         d = int(drift)
                         if d == 1:      # a slow ramp: one unit per line
                             v = v0 + lkey
@@ -233,7 +235,7 @@ def fill_builder(fb, filekey, seed, ctx, type_code, tables, plan=None, overrides
                         else:           # constant column
                             v = v0
                     else:
-                        v = typical_value(leaf, (seed, filekey, rec["name"], nth, path, lkey), tables)
+                        v = typical_value(leaf, (seed, fkey, rec["name"], nth, path, lkey), tables)
                 if plan is not None:
                     pv = plan(filekey, rec["name"], nth, path, leaf, line)
                     if pv is not NOTSET:
@@ -245,7 +247,7 @@ def fill_builder(fb, filekey, seed, ctx, type_code, tables, plan=None, overrides
 
 def build_product(level="1.5", images=(("HH", None, 5, 4),), seed=0, leader=None, nfp=None, scene_id="ALOS2014410740-140829",
                   product_id=None, ctx=None, overrides=None, line_overrides=None, summary_extra=None, plan=None,
-                  pixel_special=True, blank=None, kind=None, sample=None, salt_base=None, informational=None, drift=False, vary_first=False):
+                  pixel_special=True, blank=None, kind=None, sample=None, salt_base=None, informational=None, drift=False, vary_first=False, common_descriptor=False):
     """build a complete product.
 
     images: sequence of (pol, scan|None, n_lines, n_pixels)
@@ -274,7 +276,7 @@ def build_product(level="1.5", images=(("HH", None, 5, 4),), seed=0, leader=None
         if filekey.startswith("IMG") and first_image[0] is None:
             first_image[0] = filekey
         fill_builder(fb, filekey, seed, ctx, type_code, tables, plan=plan, overrides=overrides, drift=drift if filekey.startswith("IMG") else 0,
-                     vary_constants=bool(vary_first) and filekey == first_image[0])
+                     vary_constants=bool(vary_first) and filekey == first_image[0], desc_key="IMG-descriptor" if common_descriptor and filekey.startswith("IMG") else None)
 
     # volume directory
     n_img = len(images)
